@@ -534,6 +534,8 @@ fn run_long(a: &Args) {
 // ---------------------------------------------------------------------------------------------
 // the signal adaptor (std build only)
 
+#[cfg(not(feature = "nostd"))]
+thread_local! { static ZFEED: std::cell::RefCell<(Vec<Vec<u64>>, usize)> = std::cell::RefCell::new((Vec::new(), 0)); }
 /// a source whose `is_exhausted()` report is independent of what it yields
 #[cfg(not(feature = "nostd"))]
 struct Reporting<F> { frames: Vec<F>, pos: usize, report_from: usize }
@@ -581,11 +583,18 @@ where
         let (mut src3, mut det3) = s3.into_parts();
         let pos3 = src3.pos;
         for j in 0..2 { let f = src3.next(); outs3.push(frame_tok(det3.next(f))); let g = if k + j < fs.len() { fs[k + j] } else { F::EQUILIBRIUM }; outs3.push(frame_tok(d.next(g))); }
-        (outs, outs2, direct, pulls, outs3, pos3)
+        // source 4: a ZERO-SIZED source (`signal::gen` over a closure that captures nothing and reads a thread-local
+        // feed): the adaptor's static type says nothing about whether its source has state
+        ZFEED.with(|z| *z.borrow_mut() = (frames.to_vec(), 0));
+        let mut s4 = signal::gen(|| ZFEED.with(|z| { let mut z = z.borrow_mut(); let i = z.1; z.1 += 1; match z.0.get(i) { Some(raw) => F::from_fn(|c| <F::Sample as Smp>::from_raw(raw[c])), None => F::EQUILIBRIUM } })).rms(ring());
+        let outs4: Vec<String> = (0..k).map(|_| frame_tok(if squared { s4.next_squared() } else { s4.next() })).collect();
+        let pulls4 = ZFEED.with(|z| z.borrow().1);
+        (outs, outs2, direct, pulls, outs3, pos3, outs4, pulls4)
     });
     match res {
         None => { st.case(&req, "panic", true, k as u64); st.oracle_fail("rms adaptor panicked", &req, "no panic", "panic"); }
-        Some((outs, outs2, direct, pulls, outs3, pos3)) => {
+        Some((outs, outs2, direct, pulls, outs3, pos3, outs4, pulls4)) => {
+            if outs4 != direct || pulls4 != k { st.oracle_fail("signal.rms(ring) over a ZERO-SIZED source (gen over a closure capturing nothing) differs from the detector fed the same frames, or did not pull one frame per output", &req, &format!("{} pulls {}", direct.join(" "), k), &format!("{} pulls {}", outs4.join(" "), pulls4)); } else { st.oracle_ok(k as u64); }
             let tail_ok = outs3[k..].chunks(2).all(|c| c[0] == c[1]);
             if outs3[..k] != direct[..] || !tail_ok || pos3 != k { st.oracle_fail("signal.rms(ring) over a source that reports exhaustion while still yielding frames, then into_parts(): outputs / handed-back detector / source position differ from the detector fed the same frames", &req, &format!("{} pos {}", direct.join(" "), k), &format!("{} pos {}", outs3.join(" "), pos3)); } else { st.oracle_ok(k as u64 + 3); }
             let mut obs = outs.clone(); obs.push(format!("p{}", pulls));
